@@ -105,9 +105,6 @@ static int parse_file_name(const char *filename, size_t line_num,
 	if (current_file == NULL)
 		goto fail_alloc;
 
-	current_file->next = map->patterns;
-	map->patterns = current_file;
-
 	if (canonicalize_name(file_name)) {
 		print_error(filename, line_num, "invalid absolute path");
 		free(current_file);
@@ -115,6 +112,8 @@ static int parse_file_name(const char *filename, size_t line_num,
 		return -1;
 	}
 
+	current_file->next = map->patterns;
+	map->patterns = current_file;
 	current_file->path = file_name;
 	return 0;
 fail_alloc:
